@@ -10,6 +10,7 @@ import (
 	"ergo.services/ergo"
 	"ergo.services/ergo/act"
 	"ergo.services/ergo/gen"
+	"ergo.services/ergo/lib"
 )
 
 // C14 part 3 — two real in-process nodes over loopback TCP with observer actors.
@@ -686,6 +687,202 @@ func c14stale(c *Ctx, p *c14pair) {
 	p.a.Kill(h)
 }
 
+// c14midExchange: the connection is cut WHILE link / monitor requests are on their way (request written, answer not yet
+// read).  For every holder afterwards: either the request failed and the holder carries no relation, or it succeeded and
+// the holder got exactly one exit/down with ErrNoConnection; never a relation that is silently kept.
+func c14midExchange(c *Ctx, p *c14pair, fromB bool) {
+	r := c.R
+	type one struct {
+		h      gen.PID
+		target gen.PID
+		link   bool
+		err    error
+		done   chan struct{}
+	}
+	// make sure a connection exists so that the requests really are in flight on an established pool
+	warm, err := p.spawnHolder()
+	if err != nil {
+		r.Count("inconclusive.mid-setup")
+		return
+	}
+	wt, _ := p.spawn(p.b)
+	c14do(p.a, warm, 8*time.Second, func(a *c14actor) { a.Send(wt, "warm-up") })
+	p.settle()
+	var ones []*one
+	for i := 0; i < 8; i++ {
+		h, err1 := p.spawnHolder()
+		tp, err2 := p.spawn(p.b)
+		if err1 != nil || err2 != nil {
+			r.Count("inconclusive.mid-setup")
+			return
+		}
+		ones = append(ones, &one{h: h, target: tp, link: i%2 == 0, done: make(chan struct{})})
+	}
+	for _, o := range ones {
+		o := o
+		go func() {
+			c14do(p.a, o.h, 12*time.Second, func(a *c14actor) {
+				if o.link {
+					o.err = a.LinkPID(o.target)
+				} else {
+					o.err = a.MonitorPID(o.target)
+				}
+			})
+			close(o.done)
+		}()
+	}
+	// cut somewhere inside the exchanges
+	time.Sleep(time.Duration(c.Rng.Intn(1500)) * time.Microsecond)
+	if fromB {
+		if rn, err := p.b.Network().Node(p.nameA); err == nil {
+			rn.Disconnect()
+		}
+	} else {
+		if rn, err := p.a.Network().Node(p.nameB); err == nil {
+			rn.Disconnect()
+		}
+	}
+	for _, o := range ones {
+		select {
+		case <-o.done:
+		case <-time.After(13 * time.Second):
+			r.Violation("C14/request-hangs", "a link/monitor request in flight when the connection was cut did not return within 13 s (request time-out is 5 s)", nil)
+			return
+		}
+	}
+	p.waitNoConn(6 * time.Second)
+	time.Sleep(30 * time.Millisecond)
+	for _, o := range ones {
+		n := 0
+		for _, m := range p.rec.at(o.h) {
+			if _, reason, about := c14classify(m, o.target); about {
+				n++
+				if reason != gen.ErrNoConnection {
+					r.Violation("C14/notification-reason", fmt.Sprintf("mid-exchange cut: reason %v, want no connection", reason), nil)
+				}
+			}
+		}
+		// what the holder's own node still records for it
+		held := false
+		if info, err := p.a.ProcessInfo(o.h); err == nil {
+			for _, x := range info.LinksPID {
+				held = held || x == o.target
+			}
+			for _, x := range info.MonitorsPID {
+				held = held || x == o.target
+			}
+		}
+		kind := "monitor"
+		if o.link {
+			kind = "link"
+		}
+		r.Case(fmt.Sprintf("mid/%s/%v/%d", kind, o.err == nil, n), true)
+		if o.err == nil {
+			r.Count("nodes.mid-exchange.request-succeeded")
+		} else {
+			r.Count("nodes.mid-exchange.request-failed")
+		}
+		switch {
+		case n > 1:
+			r.Violation("C14/notification-duplicated", fmt.Sprintf("mid-exchange cut (%s): %d notifications", kind, n), nil)
+		case o.err == nil && n == 0 && held:
+			// the answer arrived, the node-down ran, THEN the relation was recorded: the listed race
+			r.Violation(c14SigRace, fmt.Sprintf("mid-exchange cut: the %s request returned nil, the connection is gone, the holder got no exit/down and its node still records the relation", kind), nil)
+		case o.err == nil && n == 0:
+			r.Violation("C14/notification-lost", fmt.Sprintf("mid-exchange cut: the %s request returned nil, the connection is gone, and the holder got no exit/down (relation still recorded: %v)", kind, held), nil)
+		case held:
+			r.Violation("C14/relation-kept-after-node-down", fmt.Sprintf("mid-exchange cut: the %s request returned %v, the connection is gone, and the holder's node still records the relation", kind, o.err), nil)
+		}
+		p.a.Kill(o.h)
+	}
+	p.a.Kill(warm)
+}
+
+const c14SigRace = "C14/link-vs-node-down-race"
+
+// c14raceWitness replays the listed finding deterministically: the holder's RouteLinkPID / RouteMonitorPID is parked at
+// the yield point between the remote request (answered OK) and the local AddLink/AddMonitor, the connection is cut and
+// the node-down is processed, then the holder continues.
+func c14raceWitness(c *Ctx, p *c14pair, link bool) {
+	r := c.R
+	label := "RouteMonitorPID:remote:before-add"
+	if link {
+		label = "RouteLinkPID:remote:before-add"
+	}
+	h, err1 := p.spawnHolder()
+	tp, err2 := p.spawn(p.b)
+	if err1 != nil || err2 != nil {
+		r.Count("inconclusive.race-setup")
+		return
+	}
+	c14do(p.a, h, 8*time.Second, func(a *c14actor) { a.Send(tp, "warm-up") })
+	p.settle()
+	parked, release := make(chan struct{}), make(chan struct{})
+	var once sync.Once
+	lib.VerifHandler = func(obj any, l string) {
+		if l == label {
+			hit := false
+			once.Do(func() { hit = true })
+			if hit {
+				close(parked)
+				<-release
+			}
+		}
+	}
+	defer func() { lib.VerifHandler = nil }()
+	var relErr error
+	done := make(chan struct{})
+	go func() {
+		c14do(p.a, h, 20*time.Second, func(a *c14actor) {
+			if link {
+				relErr = a.LinkPID(tp)
+			} else {
+				relErr = a.MonitorPID(tp)
+			}
+		})
+		close(done)
+	}()
+	select {
+	case <-parked:
+	case <-time.After(8 * time.Second):
+		close(release)
+		r.Count("inconclusive.race-not-parked")
+		return
+	}
+	if rn, err := p.a.Network().Node(p.nameB); err == nil {
+		rn.Disconnect()
+	}
+	ok := p.waitNoConn(6 * time.Second) // RouteNodeDown has run on A
+	close(release)
+	<-done
+	if !ok {
+		r.Count("inconclusive.race-timeout")
+		return
+	}
+	time.Sleep(30 * time.Millisecond)
+	n := 0
+	for _, m := range p.rec.at(h) {
+		if _, _, about := c14classify(m, tp); about {
+			n++
+		}
+	}
+	held := false
+	if info, err := p.a.ProcessInfo(h); err == nil {
+		for _, x := range append(info.LinksPID, info.MonitorsPID...) {
+			held = held || x == tp
+		}
+	}
+	r.Count("witness.link-vs-node-down-race")
+	r.Case(fmt.Sprintf("race-witness/%v", link), true)
+	if relErr == nil && n == 0 && held {
+		r.Count("witness.link-vs-node-down-race.reproduced")
+		r.Violation(c14SigRace, fmt.Sprintf("node-down processed between the remote answer and the local Add (link=%v): the request returned nil, no exit/down was delivered, the relation stays recorded without a connection", link), map[string]interface{}{"link": link})
+	} else if relErr == nil && n != 1 {
+		r.Violation("C14/notification-lost", fmt.Sprintf("race witness: request returned nil, %d notifications, relation recorded: %v", n, held), nil)
+	}
+	p.a.Kill(h)
+}
+
 func c14Nodes(c *Ctx) {
 	r := c.R
 	kinds := []string{"pid", "name", "alias", "event", "node"}
@@ -769,6 +966,9 @@ func c14Nodes(c *Ctx) {
 				run(p, sc)
 			}
 			c14calls(c, p)
+			c14midExchange(c, p, false)
+			c14midExchange(c, p, true)
+			c14raceWitness(c, p, distinct)
 			if distinct {
 				c14stale(c, p)
 			}
